@@ -62,6 +62,7 @@ type State struct {
 	defers map[int][]deferred // by frame id
 	dead   bool
 	edges  map[*ssa.BasicBlock]*Term // edge conditions of the last merge (for Phi)
+	boxed  []*localObj               // cells whose address was boxed into an interface value
 	locals []*localObj               // heap objects allocated by this activation that have not escaped yet
 	links  []epochLink               // "allocated" havocs: how this epoch's base maps relate to an earlier epoch's
 }
@@ -83,6 +84,7 @@ func (s *State) clone() *State {
 	n := &State{pc: s.pc, guard: s.guard, epoch: s.epoch, now: s.now, dead: s.dead}
 	n.links = append([]epochLink(nil), s.links...)
 	n.locals = append([]*localObj(nil), s.locals...)
+	n.boxed = append([]*localObj(nil), s.boxed...)
 	n.cells = make(map[*ssa.Alloc]Val, len(s.cells))
 	for k, v := range s.cells {
 		n.cells[k] = v
